@@ -32,11 +32,14 @@ def _case(args):
     from lark import Lark
     from lark.exceptions import UnexpectedInput, LarkError
     obs = []
+    import re as _re, zlib as _zlib
+    # a sixth of the grammars are built with the parser-wide DOTALL flag: a plain `.` then matches newlines, whatever the terminal's own text says
+    gflags = _re.S if _zlib.crc32(g.encode('utf-8')) % 6 == 0 else 0
     for parser, lexer in configs:
         try:
             with guarded(10):
                 # dynamic_complete: every token of *every* derivation is checked (explicit ambiguity), not only those of the resolved tree
-                p = Lark(g, parser=parser, lexer=lexer, use_bytes=use_bytes, **({'ambiguity': 'explicit'} if lexer == 'dynamic_complete' else {}))
+                p = Lark(g, parser=parser, lexer=lexer, use_bytes=use_bytes, g_regex_flags=gflags, **({'ambiguity': 'explicit'} if lexer == 'dynamic_complete' else {}))
         except LarkError as e:
             obs.append({'cfg': [parser, lexer], 'build_error': type(e).__name__})
             continue
@@ -59,7 +62,7 @@ def _case(args):
             pass
         for text in texts:
             data = text.encode('latin-1') if use_bytes else text
-            rec = {'cfg': [parser, lexer], 'text': text, 'bytes': use_bytes, 'flagsound': flagsound}
+            rec = {'cfg': [parser, lexer], 'text': text, 'bytes': use_bytes, 'flagsound': flagsound, 'g_regex_flags': int(gflags)}
             try:
                 with guarded(10):
                     tree = p.parse(data)
@@ -184,13 +187,13 @@ def run(ctx, res):
         if rec['bytes']:
             res.count('bytes_cases')
         if not rec.get('slice_ok', True):
-            res.violation('text[start_pos:end_pos] != token', {'grammar': job[0], 'text': rec['text'], 'config': rec['cfg'], 'bytes': rec['bytes'], 'tokens': toks})
+            res.violation('text[start_pos:end_pos] != token', {'grammar': job[0], 'text': rec['text'], 'config': rec['cfg'], 'bytes': rec['bytes'], 'g_regex_flags': rec.get('g_regex_flags', 0), 'tokens': toks})
             continue
         for t, ms in zip(toks, m):
             got = [t[2], t[4], t[5], t[3], t[6], t[7]]
             if got != ms:
                 res.violation('token %r at %d: (start_pos,line,column,end_pos,end_line,end_column) = %s, source coordinates are %s' % (t[1], t[2], got, ms),
-                              {'grammar': job[0], 'text': rec['text'], 'config': rec['cfg'], 'bytes': rec['bytes'], 'token': t, 'expected': ms})
+                              {'grammar': job[0], 'text': rec['text'], 'config': rec['cfg'], 'bytes': rec['bytes'], 'g_regex_flags': rec.get('g_regex_flags', 0), 'token': t, 'expected': ms})
                 break
 
 
